@@ -378,21 +378,23 @@ def divergence(ctx, k, kind):
     t2f = np.asarray(mesh.t2f)
     f2t = np.asarray(mesh.f2t)
     cells = rng.permutation(nt)[:min(nt, 4)]
-    order = 6
+    # the harness' own 10-point Gauss rule on the reference facet: converged to rounding on curved facets too,
+    # so the comparison judges the maps and not the truncation error of a low-order rule
+    qkw = {"quadrature": ref_facet_rule(rd.brefdom, d)} if d > 1 else {"intorder": 2}
     for c in cells:
         total = 0.0
         for slot in range(t2f.shape[0]):
             f = int(t2f[slot, c])
             side = 0 if f2t[0, f] == c else 1
-            fb = skfem.FacetBasis(mesh, elem(), facets=np.array([f]), side=side, intorder=order)
+            fb = skfem.FacetBasis(mesh, elem(), facets=np.array([f]), side=side, **qkw)
             x = fb.global_coordinates()
             n = np.array(fb.normals)
             # FacetBasis normals are taken from the first neighbour: outward for side 0, inward for side 1
             sgn = 1.0 if side == 0 else -1.0
             total += sgn * float((np.einsum("icq,icq->cq", np.array(x), n) * fb.dx).sum())
-        ctx.close("divergence-theorem-cell", total, d * vol[c], rtol=1e-9 if mc.straight else 1e-7, scale=d * abs(vol[c]),
+        ctx.close("divergence-theorem-cell", total, d * vol[c], rtol=1e-9 if mc.straight else 1e-8, scale=d * abs(vol[c]),
                   mech=f"div-cell:{mname}:{kind}", mesh=cname, geom=geom, cell=int(c), desc=mc.desc)
-    fb = skfem.FacetBasis(mesh, elem(), intorder=order)
+    fb = skfem.FacetBasis(mesh, elem(), **qkw)
     x, n = np.array(fb.global_coordinates()), np.array(fb.normals)
     total = float((np.einsum("icq,icq->cq", x, n) * fb.dx).sum())
     V = float(np.sum(vol))
@@ -404,11 +406,11 @@ def divergence(ctx, k, kind):
         f = int(bf[j])
         c = int(f2t[0, f])
         slot = int(np.nonzero(t2f[:, c] == f)[0][0])
-        meas, av, flux, xo, no = own_facet_measure_and_normal(own, kind, rd, c, slot, nq=8)
-        ctx.close("facetbasis-normals-dx", float(fb.dx[j].sum()), meas, rtol=1e-9 if mc.straight else 1e-6, scale=meas,
+        meas, av, flux, xo, no = own_facet_measure_and_normal(own, kind, rd, c, slot, nq=10)
+        ctx.close("facetbasis-normals-dx", float(fb.dx[j].sum()), meas, rtol=1e-9, scale=meas,
                   mech=f"fb-dx:{mname}:{kind}", facet=f, mesh=cname, geom=geom)
         ctx.close("facetbasis-normals-dx", float((np.einsum("iq,iq->q", x[:, j], n[:, j]) * fb.dx[j]).sum()), flux,
-                  rtol=1e-9 if mc.straight else 1e-6, scale=abs(flux) + meas * float(np.abs(x[:, j]).max()),
+                  rtol=1e-9, scale=abs(flux) + meas * float(np.abs(x[:, j]).max()),
                   mech=f"fb-flux:{mname}:{kind}", facet=f, mesh=cname, geom=geom)
     ctx.nontrivial(mname, cname, "divergence", geom)
 
